@@ -1271,5 +1271,13 @@ def parax_centred(ctx):
     return res
 
 
-RULES = [parax_centred, c01_remove_relink, c13_inputs_converted, vertex_curvature, mirror_index, c01_media_chain, no_stale, records, chief_ray, parax_eq, invariant_step, parax_linear, crossing, signed_return,
+
+def c03_registry(ctx):
+    """shared with C03: FieldGroup.max_field, which scales the paraxial chief
+    ray (hence the invariant and every field-dependent term), is the largest
+    radial field"""
+    from .C03 import registry as _r
+    return _r(ctx)
+
+RULES = [c03_registry, parax_centred, c01_remove_relink, c13_inputs_converted, vertex_curvature, mirror_index, c01_media_chain, no_stale, records, chief_ray, parax_eq, invariant_step, parax_linear, crossing, signed_return,
          fno_epd, mag_inv, inverted4, object_position]
